@@ -9,6 +9,7 @@
    (compressed offset and data length of every non-empty block, final position, ending) that a
    caller observes through fill_buf / consume / virtual_position / position. *)
 From Coq Require Import List Arith NArith Bool.
+From NV Require Bgzf.Vpos Bgzf.Gzi Bgzf.ReaderOps Io.Sched Io.SchedProofs Async.Reader Async.ReaderProofs.
 From NV Require Import Async.Framing Async.FramingProofs.
 Import ListNotations.
 
@@ -95,3 +96,89 @@ Proof.
   vm_compute. repeat split; try reflexivity.
   repeat constructor.
 Qed.
+
+(* ============================================================================================
+   The async BGZF READER above the framing layer (model: NV.Async.Reader -- Inflater +
+   TryBuffered as an instance of the generic ticket pipeline NV.Io.Sched with window =
+   worker_count, the reader's poll_fill_buf / consume / poll_read / virtual_position cursor,
+   tokio's read_exact, the read-to-end loop, the repaired seek and seek_by_uncompressed_position)
+   against the sync reader model of property C02 (NV.Bgzf.ReaderOps, the reader after its repair).
+   ============================================================================================ *)
+Module RD.
+Import NV.Bgzf.Vpos NV.Bgzf.Gzi NV.Bgzf.ReaderOps NV.Io.Sched NV.Async.Reader NV.Async.ReaderProofs.
+
+(* FULL STATEMENT for the reader over parsed well-formed files: for EVERY file (frames with at
+   most 65536 data bytes each, empty blocks anywhere), EVERY worker count W >= 1, EVERY size P >= 1
+   of the blocking pool, EVERY scheduler (which pipeline actions -- decode the next frame, start a
+   task, complete ANY running task, hand a result over -- are played during each wait for a block,
+   i.e. every completion order and every poll script of the source), EVERY index and EVERY history
+   of operations (read, read_exact, fill_buf, consume, read to the end, seek, seek by uncompressed
+   position): the result of each operation and the virtual position after it are exactly those of
+   the sync reader. *)
+Theorem c16_async_reader_equals_sync :
+  forall (W P : nat) (sch : nat -> list act) (f : file) (idx : gzi_index) (ops : list op),
+    (0 < W)%nat -> (0 < P)%nat -> Forall (fun b => (flen b <= 65536)%N) f ->
+    a_run W P sch f idx (a_init f) ops = ReaderOps.run true f idx (ReaderOps.init f) ops.
+Proof. intros W P sch f idx ops HW HP Hf. exact (async_reader_equals_sync W P sch HW HP f idx ops Hf). Qed.
+Print Assumptions c16_async_reader_equals_sync.
+
+(* hence nothing depends on the worker count, the pool size or the schedule *)
+Theorem c16_async_reader_schedule_indep :
+  forall W P sch W' P' sch' f idx ops,
+    (0 < W)%nat -> (0 < P)%nat -> (0 < W')%nat -> (0 < P')%nat -> Forall (fun b => (flen b <= 65536)%N) f ->
+    a_run W P sch f idx (a_init f) ops = a_run W' P' sch' f idx (a_init f) ops.
+Proof.
+  intros. rewrite !c16_async_reader_equals_sync by assumption. reflexivity.
+Qed.
+Print Assumptions c16_async_reader_schedule_indep.
+
+(* The schedules quantified over are ALL complete schedules: a wait for a block ("pull") plays
+   the scheduler's actions and then a canonical completion; when the scheduler's own actions
+   already end the wait, the canonical part does nothing ... *)
+Theorem c16_pull_any_complete_schedule :
+  forall W P seg s, pfinal (fold_left (pstep W P) seg (start_pull s)) = true ->
+    pull_with W P seg s = fold_left (pstep W P) seg (start_pull s).
+Proof. exact pull_complete_schedule. Qed.
+Print Assumptions c16_pull_any_complete_schedule.
+
+(* ... and every wait does end (no deadlock for any window >= 1 and pool >= 1): the reader gets
+   a block with data or the end of the stream. *)
+Theorem c16_pull_ends :
+  forall W P, (0 < W)%nat -> (0 < P)%nat -> forall s, SchedProofs.wf frame rdr s ->
+    pfinal (pcomplete W P s) = true.
+Proof. exact pcomplete_final. Qed.
+Print Assumptions c16_pull_ends.
+
+(* Whatever the schedule, a wait for a block leaves the reader where the sync reader's
+   read_nonempty_block loop leaves it (empty blocks skipped, the last frame taken is current). *)
+Theorem c16_pull_is_next_nonempty :
+  forall W P, (0 < W)%nat -> (0 < P)%nat -> forall seg s, SchedProofs.wf frame rdr s ->
+    let s' := pull_with W P seg s in
+    SchedProofs.wf frame rdr s' /\
+    match next_nonempty (remaining s) (r_position (cs s)) with
+    | None =>
+        remaining s' = [] /\
+        cs s' = mkRdr true (r_position (cs s)) (r_blk (cs s)) (S (pulls (cs s)))
+    | Some (b, p, r, np) =>
+        remaining s' = r /\
+        cs s' = mkRdr (flen b =? 0)%N np (mkBlk p (csize b) (fdata b) 0) (S (pulls (cs s)))
+    end.
+Proof. exact pull_spec. Qed.
+Print Assumptions c16_pull_is_next_nonempty.
+
+(* non-vacuity: data, an empty block, data, the EOF marker; 3 workers; during the first wait all
+   three frames are decoded, their tasks started and completed in the order 2, 0, 1 before any
+   result is handed over; a seek to the empty block lands on the data block after it, a seek to
+   the end leaves an empty block there. *)
+Example c16_reader_example :
+  let f := [mkFrame 30 [1; 2; 3]; mkFrame 28 []; mkFrame 31 [4; 5; 6; 7]; mkFrame 28 []]%N in
+  let sch := sch_of [[0; 0; 0; 1; 1; 1; 6; 4; 5; 2; 3]; []; [0; 1; 4]]%nat in
+  let ops := [Read 2; FillBuf; Consume 1; ReadExact 3; Seek (pack 30 0); Read 10; Seek (pack 117 0); FillBuf]%N in
+  a_run 3 2 sch f [] (a_init f) ops
+  = [ (OBytes (Ok [1; 2]), Ok (pack 0 2)); (OBytes (Ok [3]), Ok (pack 0 2)); (OUnit, Ok (pack 30 0));
+      (OBytes (Ok [4; 5; 6]), Ok (pack 58 3)); (OPos (Ok (pack 30 0)), Ok (pack 58 0));
+      (OBytes (Ok [4; 5; 6; 7]), Ok (pack 89 0)); (OPos (Ok (pack 117 0)), Ok (pack 117 0));
+      (OBytes (Ok []), Ok (pack 117 0)) ]%N
+  /\ ReaderOps.run true f [] (ReaderOps.init f) ops = a_run 3 2 sch f [] (a_init f) ops.
+Proof. vm_compute. split; reflexivity. Qed.
+End RD.
